@@ -26,8 +26,58 @@ ASSUMPTIONS = ["numba prange iterations are independent; list append per motif s
 F = "tools.fimo"
 
 
+def motif_purity_rule(repo):
+    """the PWMs the caller hands in are only read: `pwm.numpy(force=True)` of a CPU tensor shares its memory, so an in-place operation on
+    such an array (op=, subscript store, out=) changes the caller's motif - the next scan with the same dict scores a different model.
+    Taint: loop / comprehension variables over `motifs` / `motifs_` (items), and names assigned from a view chain of a tainted name."""
+    from ..core import named
+    fi = repo.func(F + ".fimo")
+    role = "the caller's motif matrices are never written in place (numpy(force=True) shares memory with a CPU tensor)"
+    VIEWS = ("numpy", "detach", "cpu", "T", "reshape", "view", "squeeze", "unsqueeze", "transpose", "contiguous")
+    tainted = set()
+    def iter_over_motifs(e):
+        return any(isinstance(x, ast.Name) and x.id in ("motifs", "motifs_") for x in ast.walk(e))
+    for n in ast.walk(fi.node):
+        if isinstance(n, (ast.For, ast.comprehension)) and iter_over_motifs(n.iter):
+            for x in ast.walk(n.target):
+                if isinstance(x, ast.Name) and x.id not in ("name", "_"):
+                    tainted.add(x.id)
+    def is_view_of_tainted(e):
+        while True:
+            if isinstance(e, ast.Name):
+                return e.id in tainted
+            if isinstance(e, ast.Call) and isinstance(e.func, ast.Attribute) and e.func.attr in VIEWS:
+                e = e.func.value
+            elif isinstance(e, (ast.Subscript, ast.Attribute)):
+                e = e.value
+            else:
+                return False
+    changed = True
+    while changed:
+        changed = False
+        for n in ast.walk(fi.node):
+            if isinstance(n, ast.Assign) and len(n.targets) == 1 and isinstance(n.targets[0], ast.Name) and n.targets[0].id not in tainted and is_view_of_tainted(n.value):
+                tainted.add(n.targets[0].id)
+                changed = True
+    bad = None
+    for n in ast.walk(fi.node):
+        if isinstance(n, ast.AugAssign) and is_view_of_tainted(n.target):
+            bad = bad or n
+        elif isinstance(n, ast.Assign) and any(isinstance(t, ast.Subscript) and is_view_of_tainted(t.value) for t in n.targets):
+            bad = bad or n
+        elif isinstance(n, ast.Call) and isinstance(n.func, ast.Attribute) and n.func.attr.endswith("_") and not n.func.attr.startswith("_") and is_view_of_tainted(n.func.value):
+            bad = bad or n
+        elif isinstance(n, ast.Call) and any(k.arg == "out" and is_view_of_tainted(k.value) for k in n.keywords):
+            bad = bad or n
+    if bad is not None:
+        return [named("R-PURE", fi, role, "`%s` writes into an array that shares memory with a caller-owned PWM: repeated scans with the same motif dict "
+                      "see pwm + k * eps" % unparse(bad)[:60], bad)]
+    return [holds("R-PURE", fi, role, "%d name(s) view the caller's PWMs, none is written" % len(tainted), fi.node, nontrivial=False)]
+
+
 def run(repo, tier):
     out = []
+    out += motif_purity_rule(repo)
     out += window_rules(repo)
     out += field_rules(repo)
     out += sentinel_rules(repo)
